@@ -2,7 +2,7 @@
 From Coq Require Import List NArith ZArith.
 From N0 Require Import Base.PyStr Base.PyVal Xpath.Dec Xpath.DecProofs Xpath.Token Xpath.TokenProofs
   Xpath.Find Xpath.FindProofs Xpath.Write Xpath.SpecProofs Xpath.WalkProofs Xpath.TokenizeProofs Xpath.EnumProofs
-  Xpath.FstrProofs Xpath.FanoutProofs Xpath.PredProofs Xpath.PredOpsProofs.
+  Xpath.FstrProofs Xpath.FanoutProofs Xpath.PredProofs Xpath.PredOpsProofs Xpath.PredNameOpsProofs.
 Import ListNotations.
 
 (* For a list of dict records reached by a concrete path P, 'P/[*]/f' returns the values
@@ -106,6 +106,34 @@ Theorem C06_predicate_ops_step :
   Ok (root, fanout_result re rl dflt (flat_map (sel_list (rec_select_op o k f v)) (r0 :: items))).
 Proof. exact pred_lookup_op. Qed.
 Print Assumptions C06_predicate_ops_step.
+
+(* ... and for the spelling with the predicate on the name token, 'P[k op v]/f': the resolver rewrites it into
+   the quoted step [k op 'v'] below the list, which re-parses to the same predicate (quoted_pred_ok_op: k and v over
+   the index alphabet, no '!'), for all three operators *)
+Theorem C06_predicate_ops_on_name :
+  forall o fuel root x re rl dflt toks0 p0 c0 kvs0 segs0 name c r0 items yk fk k f v,
+  keys_good root ->
+  has_path_char x = true -> tokenize x = toks0 ++ [yk; fk] ->
+  walks root toks0 p0 (Dict c0 kvs0) segs0 ->
+  split_name_index yk = Ok (name, IdxPred k (op_str o) (PvStr v)) ->
+  split_name_index name = Ok (name, IdxNone) -> plain_key name ->
+  lookup name kvs0 = Some (Lst c (r0 :: items)) ->
+  pstr_eqb k s_text = false -> clean_lit_ops v -> quoted_pred_ok_op o k v ->
+  split_name_index fk = Ok (f, IdxNone) -> plain_key f ->
+  all_selectable_op o k f v (r0 :: items) ->
+  2 * length toks0 + 2 * (length segs0 + 2) + 12 <= fuel ->
+  dict_get_core fuel root x re rl dflt =
+  Ok (root, fanout_result re rl dflt (flat_map (sel_list (rec_select_op o k f v)) (r0 :: items))).
+Proof. exact pred_lookup_name_op. Qed.
+Print Assumptions C06_predicate_ops_on_name.
+
+Theorem C06_predicate_ops_on_name_nonvacuous :
+  quoted_pred_ok_op OpNe [107]%N [97]%N /\ quoted_pred_ok_op OpHas [107]%N [97]%N /\
+  dict_get_core (fuel_for pr_root pr_xn_ne) pr_root pr_xn_ne true true LDefault = Ok (pr_root, LVal (Lst true [Leaf (SInt 2)])) /\
+  dict_get_core (fuel_for pr_root pr_xn_has) pr_root pr_xn_has true true LDefault
+  = Ok (pr_root, LVal (Lst true [Leaf (SInt 1); Leaf (SInt 3)])).
+Proof. exact pred_name_ops_example. Qed.
+Print Assumptions C06_predicate_ops_on_name_nonvacuous.
 
 Theorem C06_predicate_ops_nonvacuous :
   clean_lit_ops [97]%N /\
